@@ -1,0 +1,17 @@
+//go:build verif
+
+package deque
+
+// Read-only views for the verification harness (/verif). Built only with -tags verif.
+
+// VerifState reports whether the backing slice is nil, its length, front, back and gen.
+func (d *Deque[T]) VerifState() (isNil bool, capacity, front, back, gen int) {
+	return d.a == nil, len(d.a), d.front, d.back, d.gen
+}
+
+// VerifSlots returns a copy of the raw backing slice.
+func (d *Deque[T]) VerifSlots() []T {
+	out := make([]T, len(d.a))
+	copy(out, d.a)
+	return out
+}
